@@ -623,6 +623,7 @@ func replay(args []string) {
 	rep := fs.Int("rep", 0, "")
 	out := fs.String("out", "result.json", "")
 	sample := fs.Int("sample", 0, "replay only every k-th edge offset by seed (0 = all)")
+	peekEvery := fs.Int("peek", 3, "replay every k-th edge (offset by seed) a second time with accessor reads after every call (0 = never)")
 	fs.Parse(args)
 	var lim Lim
 	vh.Must(json.Unmarshal([]byte(*limJ), &lim))
@@ -655,8 +656,8 @@ func replay(args []string) {
 		}
 		if d := diff(got, want); d != "" {
 			res.AddMismatch(vh.Mismatch{Kind: "state", Case: caseSig(lim, ops, d), Path: ops[:len(ops)-1], Act: ops[len(ops)-1], Want: want, Got: got, Detail: d})
-		} else if (int64(i)+vh.Seed())%3 == 0 {
-			// every third edge a second time with the live span read after every call
+		} else if *peekEvery > 0 && (int64(i)+vh.Seed())%int64(*peekEvery) == 0 {
+			// every k-th edge a second time with the live span read after every call
 			got, p = runP(lim, ops, *rep, true)
 			res.Executed++
 			res.Count("edges_replayed_with_peeks", 1)
